@@ -81,6 +81,14 @@ func (x *Exec) invoke(st *State, recv Value, m *types.Func, args []Value, in ssa
 				return VStr{s}
 			case VPtr:
 				if iv.Obj != nil {
+					// the concrete service's Algorithm() contract (ensures \result == "NAME")
+					if n := namedOf(iv.Obj.Type); n != nil {
+						for name, t := range x.V.serviceTypes() {
+							if t == n {
+								return VStr{strConst(name)}
+							}
+						}
+					}
 					return VStr{x.V.algorithmOf(iv.Obj.Type)}
 				}
 			}
